@@ -186,6 +186,22 @@ var (
 	reKeyLine = regexp.MustCompile(`^\s*key: (".*")$`)
 )
 
+// sameButLeadingDots: two different lines that become equal once every '.' that starts a name
+// (after a space or an opening bracket) is dropped: `.bar.v1.Thing` vs `bar.v1.Thing`.
+func sameButLeadingDots(x, y string) bool {
+	strip := func(s string) string {
+		var sb strings.Builder
+		for i := 0; i < len(s); i++ {
+			if s[i] == '.' && (i == 0 || s[i-1] == ' ' || s[i-1] == '(' || s[i-1] == '<' || s[i-1] == ',') {
+				continue
+			}
+			sb.WriteByte(s[i])
+		}
+		return sb.String()
+	}
+	return x != y && strip(x) == strip(y)
+}
+
 // firstDiffClass classifies the first line on which two printed texts differ.
 func firstDiffClass(a, b string) (string, string) {
 	la, lb := strings.Split(a, "\n"), strings.Split(b, "\n")
@@ -202,6 +218,8 @@ func firstDiffClass(a, b string) (string, string) {
 		}
 		desc := fmt.Sprintf("line %d: %q vs %q", i+1, x, y)
 		switch {
+		case sameButLeadingDots(x, y):
+			return "leading dot of a type reference (scope of the name)", desc
 		case reKeyLine.MatchString(x) || strings.Contains(x, "value:") || strings.HasPrefix(strings.TrimSpace(x), "key:"):
 			return "map option entries", desc
 		case reOptLine.MatchString(x) || reFldOpt.MatchString(x):
@@ -307,7 +325,7 @@ func runC14(cfg *vh.Config) error {
 	restore := quietStdout()
 	defer restore()
 	res := vh.NewResult("C14", cfg.Seed)
-	res.Rule = "random bundles of 1-3 packages x 1-4 files x 1-4 declarations (objects with fields of every type/rule/wrapper, references across files and packages, enums with info maps, oneofs, services with options, topics, entities); each bundle compiled and printed under 8 (quick) / 64 (thorough) configurations: shuffled file and package listings, fresh PackageSet per package, one reused set with shuffled CompilePackage call order, each package compiled twice on a reused set; Go randomises map iteration per range, so repetition explores the map orders. non-trivial = distinct bundle with at least two output files"
+	res.Rule = "random bundles of 1-3 packages x 1-4 files x 1-4 declarations (objects with fields of every type/rule/wrapper, references across files and packages, enums with info maps, oneofs, services with options, topics, entities); each bundle compiled and printed under 8 (quick) / 64 (thorough) configurations: shuffled file and package listings, fresh PackageSet per package, one reused set with shuffled CompilePackage call order, each package compiled twice on a reused set; Go randomises map iteration per range, so repetition explores the map orders; history stream: 6 (quick) / 24 (thorough) families of 3 DIFFERENT bundles that share source and output file paths (same holder file, different import sets over unrelated, sibling and nested packages whose first name parts collide), each family compiled and printed in sequence in 3 fresh processes (one rotation each), every variant printed after others compared byte for byte with the process that printed it first. non-trivial = distinct bundle with at least two output files"
 	cf := &vh.CasesFile{
 		Header: "From Coq Require Import String List NArith.\nFrom J5V.model Require Import CmpbFields CmpbFieldsCorr CmpbOrder CmpbOrderCorr.",
 		Type:   "c14case",
@@ -560,6 +578,11 @@ func runC14(cfg *vh.Config) error {
 		}
 		caseNo++
 	}
+
+	// ---- stream: history. families of DIFFERENT bundles that share file paths, compiled and printed one after
+	// the other in one fresh process, each compared with the process that handled it first (c14hist.go)
+	runC14History(cfg, res, caseNo, distinct)
+	caseNo++
 
 	// ---- stream: printing one descriptor many times. protobuf ranges over extension fields and map
 	// entries in a random order per call, so repeated printing explores those orders directly.
